@@ -47,11 +47,11 @@ PROPS = {
         'C02_check: pg_read(sql) must succeed, be built from allowed nodes only, every column must be a field/default field of the query and every string constant a (translated) value of the query.',
         ['PgModel is a conservative model of scan.l/gram.y validated one-directionally against pg_query in design; not re-validated at run time']),
     'C03': P(
-        ['C03_pattern_translation_preserves_meaning', 'C03_grammar_reads_the_query_structure', 'C03_sql_true_on_exactly_the_rows_of_the_query', 'C03_rendered_sql_is_true_on_exactly_the_rows_of_the_query'],
+        ['C03_pattern_translation_preserves_meaning', 'C03_grammar_reads_the_query_structure', 'C03_sql_true_on_exactly_the_rows_of_the_query', 'C03_rendered_sql_is_true_on_exactly_the_rows_of_the_query', 'C03_fragment_renders_and_selects_exactly_the_rows_of_the_query'],
         [('corpus', 0), ('sem', 1700), ('sem', 1700), ('sem', 1700), ('rand', 2000), ('scale-list', 0), ('scale-digits', 0), ('scale-values', 0), ('scale-names', 0)],
         [('corpus', 0), ('sem', 20000), ('sem', 20000), ('sem', 20000), ('sem', 20000), ('rand', 20000), ('scale-list', 0), ('scale-digits', 0), ('scale-values', 0), ('scale-names', 0)],
         PARSE + ['Render', 'ToPostgres', 'SqlToks'],
-        'proved for the fragment with integer and string constants (Spec/SqlFrag.tr): for every tree (AND, OR, NOT, +, - over equality, comparisons, integer ranges with every inclusivity and open ends, value lists, wildcard patterns; any depth) PostgreSQL grammar reads from the SQL token sequence exactly the same Boolean combination of the same leaf predicates, and that expression is true on exactly the rows on which the query is true, for every row (numbers compare numerically - the decimal text of an integer denotes it - strings as strings, patterns by the translation theorem). And end to end on the model: whenever the model Render returns a text s for such a tree (field names of at most 63 bytes, range integers within int64, patterns not of the /.../ form), the PostgreSQL scanner and grammar models read from s exactly that expression (Proofs/SqlText: Render text = btxt; Proofs/SqlLex: pg_lex btxt = tr tokens; one lemma per token kind of scan.l that occurs). The same token sequence is also compared per case with the scanner model on the implementation text. Not proved: ToPostgres succeeds (per case), floats (their text comes from strconv: oracle), string ranges (K1, K2). Those and everything else are decided by the executable semantics: the meaning of the query text (Spec/QuerySem.qsem on the model parse) against the meaning of the SQL text as the PostgreSQL model reads it (Spec/SqlSem.ssem on PgModel.pg_read), on probe rows hitting every region cut out by the query constants.',
+        'proved for the fragment with integer and string constants (Spec/SqlFrag.tr): for every tree (AND, OR, NOT, +, - over equality, comparisons, integer ranges with every inclusivity and open ends, value lists, wildcard patterns; any depth) PostgreSQL grammar reads from the SQL token sequence exactly the same Boolean combination of the same leaf predicates, and that expression is true on exactly the rows on which the query is true, for every row (numbers compare numerically - the decimal text of an integer denotes it - strings as strings, patterns by the translation theorem). And end to end on the model: whenever the model Render returns a text s for such a tree (field names of at most 63 bytes, range integers within int64, patterns not of the /.../ form), the PostgreSQL scanner and grammar models read from s exactly that expression (Proofs/SqlText: Render text = btxt; Proofs/SqlLex: pg_lex btxt = tr tokens; one lemma per token kind of scan.l that occurs). The same token sequence is also compared per case with the scanner model on the implementation text. Render succeeds on the fragment when the literal function accepts every leaf text (valid UTF-8 per the oracle, no NUL). Not proved: floats (their text comes from strconv: oracle), string ranges (K1, K2); that ToPostgres = Parse then Render is the Api model, tied by the correspondence. Those and everything else are decided by the executable semantics: the meaning of the query text (Spec/QuerySem.qsem on the model parse) against the meaning of the SQL text as the PostgreSQL model reads it (Spec/SqlSem.ssem on PgModel.pg_read), on probe rows hitting every region cut out by the query constants.',
         'fragment trees (equality, comparisons, ranges with every bound kind x inclusivity, value lists, patterns, AND/OR/NOT/+/-, parentheses, juxtaposition), each evaluated on up to 300 probe rows (all constants, +-1, all pairwise midpoints; strings: each constant, just above, just below, pattern instances and near misses); non-trivial = rendered and read back by the PostgreSQL model',
         'C03_check evaluates qsem on the model parse against ssem on pg_read of the implementation SQL on probe rows; check_sqltoks compares the scanner model on the SQL text with SqlFrag.tr of the returned tree',
         ['PostgreSQL reading of the SQL text is the PgModel one; string order is byte order on both sides']),
